@@ -146,10 +146,15 @@ class _MoashaNp(NumpyShim):
             return SymMat(x)
         return NumpyShim.array(self, x, *a, **k)
 
-    def searchsorted(self, a, v, *args, **k):
-        if isinstance(v, SymArr) or any(is_sym(e) for e in a):
-            return np.array([sum(1 for x in a if x < vi) for vi in v])
-        return np.searchsorted(a, v, *args, **k)
+    def searchsorted(self, a, v, side="left", **k):
+        if not (isinstance(v, SymArr) or is_sym(v) or any(is_sym(e) for e in a)):
+            return np.searchsorted(a, v, side=side, **k)
+
+        def count(vi):
+            return sum(1 for x in a if (x < vi if side == "left" else x <= vi))
+        if isinstance(v, (SymArr, list, tuple, np.ndarray)):
+            return np.array([count(vi) for vi in v])
+        return count(v)         # scalar needle (np.searchsorted returns a scalar then)
 
 
 def h_moasha(sym, T=4, E=6, W=4, priority="nondominated", modes=("min", "min"), rf=2, max_t=4, grace=1, B=1,
